@@ -11,7 +11,8 @@ OpenSSL build than the one behind pyOpenSSL).  A case is a schedule:
   early       bytes each peer writes the moment its own handshake completes (they travel coalesced with its last flight)
   ops         cw/sw n   : peer writes n plaintext bytes (one ssl.write -> 1..3 records)
               cd/sd k   : deliver the next k ciphertext bytes (0 = everything pending) to the proxy as one segment
-              pc/ps n   : the child sends n bytes towards client/server
+              pc/ps n   : the child sends n bytes (up to 300 KB in one SendData) towards client/server; everything must have left
+                          the proxy when the command has been processed
               cclose/sclose : peer sends close_notify;  cfin/sfin : TCP close
   afterwards everything pending is delivered, then the final oracle is evaluated.
 
@@ -32,7 +33,7 @@ PID = "C14"
 LEVEL = "exploration"
 TECHNIQUE = "Hypothesis schedules (writes, ciphertext re-segmentation, interleaving, close_notify) against real OpenSSL peers; stream-equality oracle"
 RULE = ("schedules over {eager,lazy,client-only,server-only} x TLS1.2/1.3 per side x handshake segmentation x early data x "
-        "op list (peer writes 1B-40KiB, ciphertext delivered in generated cuts, child sends, close_notify/FIN); "
+        "op list (peer writes / child sends 1B-300KB in one call, ciphertext delivered in generated cuts, child sends, close_notify/FIN); "
         "non-trivial = a ciphertext segment boundary fell inside a TLS record, or data was coalesced with a handshake "
         "flight, or a close_notify was delivered; distinct by (mode, versions, split-shape signature, early, close kind)")
 ASSUMPTIONS = [
@@ -64,7 +65,10 @@ def pattern(direction: int, off: int, n: int) -> bytes:
 
 
 # ------------------------------------------------------------------------------------------------ strategy
-_size = st.one_of(st.integers(1, 64), st.integers(1, 3000), st.sampled_from([1, 16383, 16384, 16385, 16400, 32768, 40000]))
+_size = st.one_of(st.integers(1, 64), st.integers(1, 3000), st.integers(1, 3000),
+                  st.sampled_from([1, 16383, 16384, 16385, 16400, 32768, 40000]),
+                  # one write larger than any internal buffer of the TLS plumbing (64 KiB BIO reads, 16 KiB records)
+                  st.sampled_from([65000, 65536, 70000, 100000, 131072, 200000, 300000]))
 _cut = st.one_of(st.just(0), st.integers(1, 40), st.integers(1, 600), st.sampled_from([1, 2, 4, 5, 6, 21, 22, 29, 16384 + 21]))
 _op = st.one_of(
     st.tuples(st.sampled_from(["cw", "sw", "cw", "sw", "pc", "ps"]), _size),
@@ -352,6 +356,18 @@ def check_case(case, ctx):
             data = pattern(side.dir + 2, len(side.to_peer), arg)
             side.to_peer += data
             T.inject(d, commands.SendData(side.conn, data))
+            # sans-io: once the SendData has been processed the layer gets no further chance to emit anything for it, so
+            # whatever it still holds back now is not sent (until unrelated later traffic happens to flush it)
+            if d.crashed is None:
+                if side.peer is not None:
+                    side.peer.pump_read()
+                    got_now = bytes(side.peer.plain)
+                else:
+                    got_now = bytes(getattr(side, "plain_in", b""))
+                if got_now != bytes(side.to_peer) and bytes(side.to_peer).startswith(got_now):
+                    ctx.fail("sent-bytes-withheld:%s" % side.name, "after SendData of %d bytes towards the %s only %d of %d bytes "
+                             "had left the proxy" % (arg, side.name, len(got_now), len(side.to_peer)))
+                    return
         else:
             if side.close_sent is not None:
                 skipped += 1
